@@ -19,11 +19,11 @@ def main():
     ids = [p["id"] for p in props]
     checks = []
     have = set()
-    for path in sorted(glob.glob(os.path.join(ROOT, "pv", "checks", "c[0-9]*.py"))):
+    for path in sorted(p_ for p_ in glob.glob(os.path.join(ROOT, "pv", "checks", "c[0-9]*.py")) if os.path.basename(p_)[1:-3].isdigit()):
         name = os.path.basename(path)[:-3]
         mod = importlib.import_module(f"pv.checks.{name}")
         M = mod.META
-        if M.get("disabled"):
+        if M.get("disabled") or M["id"] in set(filter(None, os.environ.get("PV_EXCLUDE", "").split(","))):
             continue
         pid = M["id"]
         have.add(pid)
